@@ -73,7 +73,7 @@ def doc_lines(docs, emitted):
     for d in docs:
         s = idlgen.schema_sexp(d)
         for v in (d["name"], d["name"] + "k"):
-            if v in emitted and not v.endswith("k"):
+            if v in emitted:
                 out.append(f"doc {v} {s}")
     return out
 
@@ -81,6 +81,21 @@ def doc_lines(docs, emitted):
 def data_types(d):
     items = idlgen.all_items(d)
     return items, [it for it in items.values() if it["kind"] in ("struct", "exception", "union")]
+
+
+def alias_types(d):
+    """typedefs and enums: emitted as newtypes with their own Message impl, decodable stand-alone"""
+    items = idlgen.all_items(d)
+    return items, [it for it in items.values() if it["kind"] in ("typedef", "enum")]
+
+
+def async_lines(r, d, it, v, want, tag, every):
+    out = []
+    for p in ("bin", "le", "cmp"):
+        if every or r.random() < 0.34:
+            chunks = ",".join(str(r.choice([0, 1, 1, 2, 3, 7, 64])) for _ in range(r.randrange(0, 12))) or "-"
+            out.append(f"ga {d['name']} {it['name']} {p} {chunks} {idlgen.sexp(v)} => {want} {tag}")
+    return out
 
 
 def requests_C02(docs, emitted, seed, tier):
@@ -97,10 +112,16 @@ def requests_C02(docs, emitted, seed, tier):
                 for p in PROTOS:
                     if r.random() < (0.6 if tier == "quick" else 1.0):
                         out.append(f"gd {d['name']} {it['name']} {p} {idlgen.sexp(v)} => {want} C02")
-                if r.random() < 0.5:
-                    p = r.choice(["bin", "le", "cmp"])
-                    chunks = ",".join(str(r.choice([0, 1, 1, 2, 3, 7, 64])) for _ in range(r.randrange(0, 12))) or "-"
-                    out.append(f"ga {d['name']} {it['name']} {p} {chunks} {idlgen.sexp(v)} => {want} C02")
+                out += async_lines(r, d, it, v, want, "C02", every=not d["name"].startswith("r"))
+        # typedef / enum newtypes stand-alone (nothing follows them in the buffer)
+        items, aliases = alias_types(d)
+        for it in aliases:
+            for _ in range(max(2, per // 2)):
+                v = idlgen.gen_value(items, ("ref", it["name"]), r, r.randrange(0, 3))
+                want = idlgen.expected(items, it["name"], v)
+                for p in PROTOS:
+                    out.append(f"gd {d['name']} {it['name']} {p} {idlgen.sexp(v)} => {want} C02")
+                out += async_lines(r, d, it, v, want, "C02", every=True)
     return out
 
 
@@ -130,7 +151,142 @@ def requests_C08(docs, emitted, seed, tier):
                 v = idlgen.gen_item_value(items, it, r, r.randrange(0, 4))
                 w = idlgen.evolve(items, it, v, r)
                 want = idlgen.expected(items, it["name"], w)
+                hz = idlgen.hazards(items, it, w)
+                mark = "".join(f" hazard={h}" for h in sorted(hz))
                 for p in PROTOS:
-                    if r.random() < (0.5 if tier == "quick" else 1.0):
-                        out.append(f"gd {d['name']} {it['name']} {p} {idlgen.sexp(w)} => {want} C08")
+                    if hz and p == "ubin":
+                        continue      # the unchecked reader has no bounds checks: a misread value is undefined behaviour, not an answer
+                    directed = any(i in (77, 1234, -7) and x[0] == "bool" for i, x in w[1])
+                    if directed or r.random() < (0.5 if tier == "quick" else 1.0):
+                        out.append(f"gd {d['name']} {it['name']} {p} {idlgen.sexp(w)}{mark} => {want} C08")
+                if not hz:
+                    out += async_lines(r, d, it, w, want, "C08", every=not d["name"].startswith("r"))
+    return out
+
+
+def requests_C13(docs, emitted, seed, tier):
+    """documents compiled with keep_unknown_fields: writer values with extra fields of every wire type at every
+    struct level; checked and unchecked binary"""
+    r = random.Random(seed * 977 + 13)
+    out = doc_lines(docs, emitted)
+    per = 12 if tier == "quick" else 80
+    for d in docs:
+        if d["name"] + "k" not in emitted:
+            continue
+        items, types = data_types(d)
+        args = idlgen.arg_types(d)
+        for it in types:
+            if it.get("synth"):
+                continue      # the Args/Result types pilota-build synthesises are not retention-enabled (same as the plain build: C02/C08)
+            for _ in range(per):
+                v = idlgen.gen_item_value(items, it, r, r.randrange(0, 4))
+                w = idlgen.inject_unknowns(items, ("ref", it["name"]), v, r, 0.6)
+                want = idlgen.expected_keep(items, it["name"], w)
+                hz = []
+                if args and idlgen.d12_fires(items, ("ref", it["name"]), w, args):
+                    hz.append("D12")
+                if idlgen.union_known_plus_unknown(items, ("ref", it["name"]), w):
+                    hz.append("D31")
+                mark = "".join(f" hazard={h}" for h in hz)
+                # the harness re-decodes what it decoded (defaults filled in): where only THAT second decode would meet the D12
+                # shortcut the request stays in T1 and under the expected-value oracle and only the re-decode is left out
+                nort = ""
+                if args and not hz and want != "err":
+                    try:
+                        if idlgen.d12_fires(items, ("ref", it["name"]), idlgen.project_item_keep(items, it, w), args):
+                            nort = " nort"
+                    except idlgen.Reject:
+                        pass
+                for p in ("bin", "ubin"):
+                    if hz and p == "ubin":
+                        continue
+                    out.append(f"gd {d['name']}k {it['name']} {p} {idlgen.sexp(w)}{mark} => {want}{nort} C13")
+                # retention never changes how known fields decode: the plain build of the same document
+                out.append(f"gd {d['name']} {it['name']} bin {idlgen.sexp(w)} => {idlgen.expected(items, it['name'], w)} C13")
+    return out
+
+
+def requests_C19(docs, emitted, seed, tier):
+    """every truncation point of valid encodings of every type: live heap before == after a failed decode"""
+    r = random.Random(seed * 389 + 19)
+    out = doc_lines(docs, emitted)
+    per = 4 if tier == "quick" else 25
+    for d in docs:
+        items, types = data_types(d)
+        for it in types:
+            for _ in range(per):
+                v = idlgen.gen_item_value(items, it, r, r.randrange(1, 4))
+                for p in ("bin", "cmp"):
+                    out.append(f"gl {d['name']} {it['name']} {p} {idlgen.sexp(v)}")
+    # the witness of Props/C19.list_arm_leaks, on the real emitted code
+    out.append("gl da Outer bin (struct (1 (struct (1 (i32 5)))) (12 (bool 1)) (7 (bin 00)) (2 (list struct (struct (1 (i32 1)) (2 (bin 6161616161616161616161616161616161616161616161616161616161))) (struct (1 (i32 2))))))")
+    return out
+
+
+def mutate_bytes(b, r, tier):
+    """adversarial variants of a valid binary encoding: bit flips, boundary values over every aligned 4-byte and 2-byte window"""
+    out = []
+    n = len(b)
+    flips = range(n) if tier == "thorough" else r.sample(range(n), min(n, 24))
+    for i in flips:
+        for bit in ((0, 7) if tier == "quick" else range(8)):
+            m = bytearray(b); m[i] ^= 1 << bit; out.append(bytes(m))
+    vals4 = [0xFFFFFFFF, 0, 1, 0x7FFFFFFF, 0x80000000, n, n + 1, max(n - 1, 0), 0x00FFFFFF]
+    for i in (range(0, n - 3) if tier == "thorough" else r.sample(range(0, max(n - 3, 1)), min(max(n - 3, 1), 16))):
+        for v in (vals4 if tier == "thorough" else r.sample(vals4, 3)):
+            m = bytearray(b); m[i:i + 4] = v.to_bytes(4, "big"); out.append(bytes(m))
+    for i in (r.sample(range(n), min(n, 8))):
+        for tb in (0, 1, 5, 7, 9, 17, 255):
+            m = bytearray(b); m[i] = tb; out.append(bytes(m))
+    out += [bytes(r.getrandbits(8) for _ in range(r.randrange(0, 40))) for _ in range(10)]
+    return out
+
+
+def requests_C09gen(docs, emitted, seed, tier):
+    """emitted decoders on adversarial bytes: every safe protocol, in-memory and asynchronous, plain and retention builds:
+    never panic / abort / allocate out of proportion; nesting bombs on a 2 MiB stack"""
+    r = random.Random(seed * 733 + 9)
+    out = doc_lines(docs, emitted)
+    per = 1 if tier == "quick" else 4
+    for d in docs:
+        items, types = data_types(d)
+        variants = [d["name"]] + ([d["name"] + "k"] if d["name"] + "k" in emitted else [])
+        args = idlgen.arg_types(d)
+        for it in types:
+            for vn in variants:
+                keep = vn.endswith("k")
+                if keep and it.get("synth"):
+                    continue
+                for p in ("bin", "le", "cmp"):
+                    # the model of retention decoding is binary only: other protocols on a retention build are oracle-only
+                    # (and what they retain is not binary: the harness's re-encode / re-decode steps make no sense on it)
+                    oo = " nort oracle-only" if keep and p != "bin" else ""
+                    if keep and p == "bin" and args and idlgen.reaches(items, it["name"], lambda x: x["name"] in args and x["kind"] in ("struct", "exception")):
+                        oo = " oracle-only"       # D12 territory (the C13 stream marks the exact inputs; byte strings cannot be)
+                    if idlgen.reaches_union(items, it["name"]):
+                        oo += " has-union"    # (known finding D29 is told apart by this and the panic site)
+                    for _ in range(per):
+                        v = idlgen.gen_item_value(items, it, r, r.randrange(1, 4))
+                        # a newer writer: unknown fields of every wire type in every position (valid input, must decode)
+                        w = idlgen.inject_unknowns(items, ("ref", it["name"]), v, r, 0.5)
+                        if not keep or p == "bin":
+                            out.append(f"gd {vn} {it['name']} {p} {idlgen.sexp(w)} nort{oo}")
+                        else:
+                            out.append(f"gb {vn} {it['name']} {p} {idlgen.ENC[p](w).hex() or '-'}{oo}")
+                        b = idlgen.ENC[p](v)
+                        ms = mutate_bytes(b, r, tier)
+                        if tier == "quick":
+                            ms = r.sample(ms, min(len(ms), 40))
+                        for m in ms:
+                            out.append(f"gb {vn} {it['name']} {p} {m.hex() or '-'}{oo}")
+                        if not keep:
+                            for m in r.sample(ms, min(len(ms), 12 if tier == "quick" else 60)):
+                                chunks = ",".join(str(r.choice([0, 1, 1, 2, 3, 7, 64])) for _ in range(r.randrange(0, 12))) or "-"
+                                out.append(f"gab {vn} {it['name']} {p} {chunks} {m.hex() or '-'}{oo}")
+    # nesting bombs for the recursive types of the fixed documents, decoded on a 2 MiB stack (D10)
+    for depth in ((50, 500, 3000, 6000) if tier == "quick" else (10, 50, 100, 500, 1000, 2000, 3000, 5000, 10000, 20000)):
+        # Tree { 1: list<Tree> kids }: field 1 list<struct> with one element, `depth` times, around an empty struct
+        b = b"\x0f\x00\x01\x0c\x00\x00\x00\x01" * depth + b"\x00" + b"\x00" * depth
+        hz = " hazard=D10" if depth >= 1000 else ""
+        out.append(f"gbs db Tree bin 2048 {b.hex()}{hz}")
     return out
